@@ -22,6 +22,11 @@ def canon(x, _path=None):
         if isinstance(x, (list, tuple)):
             return (type(x).__name__, tuple(canon(e, _path) for e in x))
         if isinstance(x, dict):
+            try:
+                if all(type(k) is str for k in x):
+                    return (type(x).__name__, tuple((("str", k), canon(x[k], _path)) for k in sorted(x)))
+            except TypeError:
+                pass
             items = [(canon(k, _path), canon(v, _path)) for k, v in x.items()]
             return (type(x).__name__, tuple(sorted(items, key=repr)))
         if isinstance(x, (set, frozenset)):
@@ -32,7 +37,7 @@ def canon(x, _path=None):
                 "exc",
                 type(x).__name__,
                 tuple(canon(a, _path) for a in x.args),
-                tuple(sorted(((k, canon(v, _path)) for k, v in d.items()), key=repr)),
+                tuple((k, canon(d[k], _path)) for k in sorted(d)),
             )
         if isinstance(x, Library):
             blocks = x.blocks
@@ -40,17 +45,14 @@ def canon(x, _path=None):
             ed = tuple(sorted((k, pos.get(id(v), -1)) for k, v in x._entries_by_key.items()))
             sd = tuple(sorted((k, pos.get(id(v), -1)) for k, v in x._strings_by_key.items()))
             other = tuple(
-                sorted(
-                    ((k, canon(v, _path)) for k, v in vars(x).items() if k not in ("_blocks", "_entries_by_key", "_strings_by_key")),
-                    key=repr,
-                )
+                (k, canon(v, _path)) for k, v in sorted(vars(x).items()) if k not in ("_blocks", "_entries_by_key", "_strings_by_key")
             )
             return (type(x).__name__, tuple(canon(b, _path) for b in blocks), ed, sd, other)
         if isinstance(x, type):
             return ("type", x.__module__, x.__qualname__)
         d = getattr(x, "__dict__", None)
         if d is not None:
-            return (type(x).__name__, tuple(sorted(((k, canon(v, _path)) for k, v in d.items()), key=repr)))
+            return (type(x).__name__, tuple((k, canon(d[k], _path)) for k in sorted(d)))
         return ("repr", type(x).__name__, repr(x))
     finally:
         _path.discard(i)
